@@ -205,10 +205,11 @@ HARNESSES = [
          funcs=["move_itables", "ext2fs_inode_table_loc", "ext2fs_inode_table_loc_set"],
          extra_src=["lib/ext2fs/blknum.c"],
          cut_statics={"resize/resize2fs.c": ["mark_table_blocks"]},
-         configs=[{"DIFF": 1, "ZT": 2, "_unwindset": it_uw(1, 4)}, {"DIFF": -1, "ZT": 0, "_unwindset": it_uw(1, 4)}],
+         configs=[{"MOVE": 1, "_unwindset": it_uw(1, 4)}, {"MOVE": 2, "_unwindset": it_uw(1, 4)}, {"MOVE": 0, "IPB": 1, "_unwindset": it_uw(1, 1)}],
+         cbmc_flags=["--max-field-sensitivity-array-size", "4096"],
          unwind=4, witness_per_config=True, backends=["default"],
-         bound="1 group, inode table of 4 blocks of 1 KiB at block 6 of a 16-block device, 0..4 trailing all-zero blocks (per query), rest of the "
-               "device arbitrary; new table anywhere (all overlaps, both directions; direction per query)"),
+         bound="1 group, inode table of 4 blocks of 1 KiB (one symbolic tag byte per block, rest zero), device of 16 blocks with arbitrary content, "
+               "old and new table anywhere on it (all overlaps); direction of the move per query"),
 ]
 MANIFEST = {
     "text": "Bounded-exhaustive model checking (CBMC) of four kernels of resize2fs compiled from the real sources: the error-flag "
